@@ -502,7 +502,7 @@ def r07f(model, ctx):
     need(ps, "Wire.emit: no completing path")
     def declares(p):
         for e in p.effects:
-            for c in ast.walk(e):
+            for c in ast.walk(p.thaw(e)):
                 if isinstance(c, ast.Call) and c.args:
                     t = template_of(c.args[0])
                     if t is not None and t.skeleton().lstrip().startswith("wire "):
